@@ -3,6 +3,7 @@ package checks
 import (
 	"bytes"
 	"fmt"
+	"rcproxy/core/pkg/redis"
 	"sort"
 	"strings"
 	"time"
@@ -1351,6 +1352,15 @@ func c20Scenarios(tier string) []*world.Scenario {
 					}
 					out = append(out, sc)
 				}
+			}
+		}
+	}
+	// round 11: every second scenario runs against nodes that describe themselves as Redis 7 (INFO has async_loading after
+	// loading); what the proxy concludes about a node must not depend on the node's version
+	for i, sc := range out {
+		if i%2 == 1 && sc.Info == nil {
+			sc.Info = func(addr string) (*redis.Info, error) {
+				return &redis.Info{Version: "7.0.5", MasterLinkStatus: "up"}, nil
 			}
 		}
 	}
